@@ -47,6 +47,15 @@ CHECKS = {
  "C13": dict(technique="runtime monitoring: exactly-once and stream oracle at the wrapped listener's Accept with scripted consumer pacing and close instants, poison-on-release hook, yield points at the hand-off, goroutine census; GOMAXPROCS=1 and race children",
              text="Held on every run: fall-through connections delivered exactly once and intact (incl. after take/proxy_protocol/tls), consumed/rejected ones never delivered and closed, pending ones delivered xor closed at shutdown, no goroutine left.",
              note="Connections still in the scripted listener's backlog at close were never accepted by layer4 and are excluded.", ref="3/C13"),
+ "C11": dict(technique="runtime monitoring: interval-logic checker over timed histories against real loopback upstreams that the script opens/closes (passive failure windows, retry cadence/duration/last error via a logging selection policy, active checks, connection limits with held connections), counters read through the verif export; canary-guarded two-sided bounds",
+             text="Held on every generated history; one-sided assertions are sound against observer delay, two-sided ones are only evaluated under a quiet scheduler canary and with margins >= D/3.",
+             note="Durations are sub-second to ~1.2 s; simultaneous opens racing between selection and counting are not asserted.", ref="3/C11"),
+ "C12": dict(technique="runtime monitoring: stream oracle + independent PROXY v1/v2 codec: received headers (all families, boundary addresses, split at every offset, large prefetch) must be stripped exactly and honoured by RemoteAddr/LocalAddr, placeholders and ip matchers; headers sent by the proxy handler are parsed by an independent parser and must carry the effective addresses followed by the exact stream",
+             text="Held on every generated receiver, sender and receiver->sender case; headers the library refuses (TLVs) are only checked for failing closed.",
+             note="Unix-family addresses on the sender side only; scripted transport for clients, real TCP for the upstream.", ref="3/C12"),
+ "C17": dict(technique="runtime monitoring: one-sided rate-bound checker on timestamped cumulative reads of the scripted client connection (per connection and merged for the total limiter), latency lower bound, stream-prefix oracle",
+             text="Held on every timed run up to a documented marginal over-grant of the shared limiter under concurrent readers (known finding, < 0.5 %); larger excess is a violation.",
+             note="Time zero is span entry + latency (no token can be taken earlier), so observer delay can only hide violations.", ref="3/C17"),
 }
 NOT_YET = {}
 ALL = ["C%02d" % i for i in range(1, 19)]
